@@ -2,4 +2,5 @@ CONSTANT Emit = TRUE
 INIT Init
 NEXT Next
 INVARIANT OnceOrNever
+INVARIANT ChainGates
 CHECK_DEADLOCK FALSE
